@@ -155,7 +155,10 @@ def check_pool(rec, nc, rng, flavour=('list', 'int')):
             s_fit = float(np.mean(compare(got['fit'][0], rd, method=m)))
             n_eval += 2
             if s_fit > s_nc + 1e-7:
-                out.append((f'C07/pool/inference_util.pool_rdm/{m}/not-the-maximiser',
+                # an observation, not a violation: C07 claims optimality of the upper bound for cosine, corr and
+                # rho-a only (the whitened measures enter the ordering clause alone), so the prefix routes it to
+                # evidence.extras.observations
+                out.append((f'OBS/C07/pool/inference_util.pool_rdm/{m}/not-the-maximiser',
                             'inference_util.pool_rdm normalises the whitened measure by the plain norm: util.pooling.pool_rdm of the same data is more similar to the data',
                             dict(case, inference_util_score=s_nc, pooling_score=s_fit)))
             if s_nc > s_fit + 1e-5:
